@@ -278,8 +278,21 @@ def _in_training_oracle(case):
     return out
 
 
+def _in_path_case():
+    from .c06 import path_case
+    return path_case()
+
+
+def _in_path_oracle(case):
+    from .c06 import oracle_path
+    out = oracle_path(case)
+    out["nontrivial"] = bool(out.get("counts", {}).get("prox_steps", 0) >= 1)
+    return out
+
+
 def subs():
     return [
+        Sub("in_training_paths", _in_path_case(), _in_path_oracle, 60, 2000, "the operators as applied at every step of a path (dynamic mode included)"),
         Sub("in_training", _in_training_case(), _in_training_oracle, 120, 4000, "the operators as the sparse estimators apply them after each optimiser step (alpha = 0 and M = 0 included)"),
         Sub("large_matrices", large_prox_case(), oracle_large_prox, 40, 600, "1025-2600 features"),
         Sub("linear_rows", lin_case(False), oracle_linear, 3000, 150000, "row-wise group lasso"),
